@@ -136,6 +136,12 @@ func (s *scen) queries(phase string, gs []gdump.G) []gdump.G {
 	s.c.Count("query_calls", len(plan))
 	s.c.Count("query_bursts_"+phase, 1)
 	s.tr("queries (%s): %d calls, GetRunningBackgroundWorkers x%d", phase, len(plan), len(r.running))
+	s.judgeQueries(phase, &r)
+	return gs
+}
+
+// judgeQueries compares the results of a burst made at a quiescent point with the model.
+func (s *scen) judgeQueries(phase string, r *queryResult) {
 	// model
 	var live []string
 	for _, w := range s.liveWorkers() {
@@ -179,5 +185,4 @@ func (s *scen) queries(phase string, gs []gdump.G) []gdump.G {
 	if r.defaultBad != "" {
 		s.c.Note(r.defaultBad)
 	}
-	return gs
 }
